@@ -33,7 +33,7 @@ def gen_cases(tier, seed):
     cases = []
     if tier == "quick":
         plan = [("AM1", "autodiff", 5), ("PM3", "analytical", 5), ("MNDO", "numerical", 3), ("PM6_SP", "analytical", 4),
-                ("PM6", "autodiff", 3), ("AM1", "excited", 2)]
+                ("PM6", "autodiff", 2), ("PM6", "autodiff-d", 2), ("AM1", "excited", 2), ("AM1", "uhf", 3), ("PM3", "uhf-analytical", 2)]
         ncone = [0.0, 1e-4, 1e-8]
         nhaar = 2
     else:
@@ -41,7 +41,8 @@ def gen_cases(tier, seed):
                 ("PM3", "autodiff", 30), ("PM3", "analytical", 30), ("PM3", "numerical", 15),
                 ("MNDO", "autodiff", 30), ("MNDO", "analytical", 30), ("MNDO", "numerical", 15),
                 ("PM6_SP", "autodiff", 30), ("PM6_SP", "analytical", 30),
-                ("PM6", "autodiff", 30), ("AM1", "excited", 20), ("PM3", "excited_rpa", 8)]
+                ("PM6", "autodiff", 20), ("PM6", "autodiff-d", 20), ("AM1", "excited", 20), ("PM3", "excited_rpa", 8),
+                ("AM1", "uhf", 25), ("MNDO", "uhf", 15), ("PM3", "uhf-analytical", 15), ("PM6_SP", "uhf", 10)]
         ncone = [0.0, 1e-2, 1e-3, 3e-4, 1e-4, 1e-6, 1e-8, 1e-10]
         nhaar = 6
     pool_all = gen.CLOSED_NEUTRAL + gen.IONS
@@ -52,6 +53,10 @@ def gen_cases(tier, seed):
                                                "CH3F", "H2S", "SO2", "CH3Cl")]
         if method == "PM6":
             names = [m for m in names if m not in ("C6H6", "C2H6")]
+        if mode == "autodiff-d":  # molecules with a d-orbital element (Si, P, S, Cl under PM6)
+            names = [m for m in names if any(z in D_ELEMENTS_PM6 for z in gen.molecule(m)[0])]
+        if mode.startswith("uhf"):  # open shells (doublets, triplets) and UHF singlets of closed-shell molecules
+            names = gen.names_for(method, gen.RADICALS) + [m for m in names if m in ("H2O", "NH3", "CH2O", "HCN", "CH3OH")]
         picks = [names[i % len(names)] for i in g.permutation(max(len(names), n))[:n]] if n <= len(names) else \
                 [names[int(i)] for i in g.integers(0, len(names), n)]
         for name in picks:
@@ -91,8 +96,11 @@ def _settings(method, mode):
     if mode == "excited_rpa":
         return run.settings(method, eps=1e-10, converger=(2,), grad="analytical",
                             excited={"n_states": 3, "tolerance": 1e-8, "method": "rpa"}, active_state=1)
+    if mode.startswith("uhf"):
+        return run.settings(method, eps=1e-10, converger=(1,), uhf=True,
+                            grad="analytical" if mode.endswith("analytical") else "autodiff")
     conv = (2,) if method != "PM6" else (1,)
-    return run.settings(method, eps=1e-10, converger=conv, grad=mode)
+    return run.settings(method, eps=1e-10, converger=conv, grad="autodiff" if mode == "autodiff-d" else mode)
 
 
 def _transform(Xd, Z, t):
@@ -206,12 +214,14 @@ def run_case(case):
             if upd("d" + k, d, TOL_E):
                 bad.append((k, d))
         no = int(np.asarray(ref["norb"]).reshape(-1)[0])
-        d = np.abs(out["e_mo"][0][:no] - ref["e_mo"][0][:no]).max()
+        d = np.abs(out["e_mo"][0][..., :no] - ref["e_mo"][0][..., :no]).max()  # (norb,) RHF or (2, norb) UHF
         if upd("d_emo", d, TOL_EMO):
             bad.append(("e_mo", d))
-        d = abs(float(np.asarray(out["gap"]).reshape(-1)[0]) - float(np.asarray(ref["gap"]).reshape(-1)[0]))
-        if upd("d_gap", d, TOL_EMO):
-            bad.append(("gap", d))
+        ga, gb = np.asarray(out["gap"], float).reshape(-1), np.asarray(ref["gap"], float).reshape(-1)
+        if ga.size and ga.size == gb.size:
+            d = np.abs(ga - gb).max()
+            if upd("d_gap", d, TOL_EMO):
+                bad.append(("gap", d))
         d = np.abs(out["q"][0] - ref["q"][0]).max()
         if upd("d_q", d, TOL_Q):
             bad.append(("charges", d))
